@@ -125,7 +125,57 @@ def run_subprocess(acc):
             acc.fail({'scenario': 'subprocess', 'stdin': cond},
                      'real process with stdin=%s wrote %d lines, the uninterrupted stream has %d' % (cond, len(lines), len(U.stdout)), 'cut-without-quit')
         S.clear_session(td)
-    acc.sample({'scenario': 'subprocess', 'stdin_conditions': conds, 'lines': len(U.stdout)}, cap=1)
+    # a status request and a quit that arrive in ONE chunk on a pipe that stays open (typed ahead, or written by a front end): both are acted on.
+    # The ruleset is large enough (60^4 single-guess pre-terminals) for the quit to arrive long before the stream ends.
+    big = dict(D.TERMINALS[0])
+    vals = [('%02d' % i, 0.9 ** i) for i in range(60)]
+    tot = sum(p for _, p in vals)
+    big['D'] = {2: [(v, p / tot) for v, p in vals]}
+    big.update(grammar=[('D2D2D2D2', 1.0)], prince=D.PRINCE, omen=OMEN)
+    R.write_ruleset(os.path.join(td, 'Rules', 'big'), big)
+    for chunk in (b'\nq\n', b'h\n\nq\n'):
+        acc.evals += 1
+        acc.nontrivial += 1
+        S.clear_session(td)
+        case = {'scenario': 'subprocess', 'stdin': 'pipe_open, %r written at once' % chunk.decode()}
+        p = subprocess.Popen([sys.executable, '-B', os.path.join(td, 'pcfg_guesser.py'), '-r', 'big'], stdin=subprocess.PIPE, stdout=subprocess.PIPE, stderr=subprocess.PIPE, env=env)
+        p.stdin.write(chunk)
+        p.stdin.flush()
+        import threading as _th
+        res = {}
+
+        def reader():
+            res['out'] = p.stdout.read()
+        t1 = _th.Thread(target=reader, daemon=True)
+        t1.start()
+        res['err'] = b''
+        t2 = _th.Thread(target=lambda: res.__setitem__('err', p.stderr.read()), daemon=True)
+        t2.start()
+        try:
+            p.wait(120)
+        except subprocess.TimeoutExpired:
+            p.kill()
+            acc.fail(case, 'a quit typed right behind a status request (one chunk %r on an open pipe) was not acted on within 120 s: the process kept generating' % chunk.decode(), 'quit-request-dropped')
+            continue
+        finally:
+            try:
+                p.stdin.close()
+            except Exception:
+                pass
+        t1.join(30)
+        t2.join(30)
+        lines = res.get('out', b'').decode('utf-8').split('\n')
+        if lines and lines[-1] == '':
+            lines.pop()
+        errtxt = res.get('err', b'').decode('utf-8', 'replace')
+        if 'Exit command received' not in errtxt or not os.path.exists(os.path.join(td, 'default_run.sav')):
+            acc.fail(case, 'chunk %r on an open pipe: the process ended after %d guesses without acknowledging the quit / saving the session' % (chunk.decode(), len(lines)), 'quit-request-dropped')
+            continue
+        S.clear_session(td)
+        ref = S.run_guesser(td, ['-r', 'big', '-n', str(max(1, len(lines)))])
+        if lines and ref.stdout[:len(lines)] != lines:
+            acc.fail(case, 'chunk %r on an open pipe: the %d lines written before the quit are not the first lines of the stream' % (chunk.decode(), len(lines)), 'altered')
+    acc.sample({'scenario': 'subprocess', 'stdin_conditions': conds + ['pipe_open with status+quit in one chunk'], 'lines': len(U.stdout)}, cap=1)
     tree.rmtree(td)
 
 
